@@ -465,7 +465,7 @@ def permuted_history(rng, cur, cap):
             yield ('tellLr', None)
 
 
-def run_history(ctl, File, TapFile, data, model, info, target, htype, make_ops, key_extra=None):
+def run_history(ctl, File, TapFile, data, model, info, target, htype, make_ops):
     """One history on a fresh FileRead.  make_ops(cur) -> iterator of operations (may look at the cursor)."""
     tap = TapFile(data)
     try:
@@ -652,8 +652,9 @@ def gen_file(rng, fi, G):
         n = rng.choice([2, 3, cap - 1, cap, cap + 1, 2 * cap - 1, 2 * cap, 2 * cap + 1, 3 * cap, int(3.5 * cap),
                         rng.randrange(2, int(3.5 * cap) + 3), rng.randrange(2, int(3.5 * cap) + 3)])
         n = max(2, min(n, int(3.5 * cap)))
-        if not large:
-            n = min(n, MAX_LR)
+        if not large and n > MAX_LR:
+            # single physical record territory: vary the length instead of clipping everything to the cap
+            n = rng.choice([MAX_LR, rng.randrange(2, 300), rng.randrange(2, MAX_LR + 1)])
         elif i == 0:
             n = max(n, cap + 1)
         lengths.append(n)
